@@ -9,7 +9,17 @@ _spec = _u.spec_from_file_location("lexer_pos_for_tok", _os.path.join(_os.path.d
 _pos = _u.module_from_spec(_spec)
 _spec.loader.exec_module(_pos)
 
-PRELUDE = _pos.PRELUDE + r'''
+_WF_POS = """pub open spec fn wf_lexer<CharIter: Iterator<Item = char>>(l: Lexer<CharIter>) -> bool {
+    &&& (l.location[0] as int, l.location[1] as int) == pos_after((1, 1), consumed(l.peekable_char_stream))
+    &&& consumed(l.peekable_char_stream).len() + rem(l.peekable_char_stream).len() + 1 < u32::MAX
+}"""
+# C06 needs of the position counters only that they cannot overflow; WHERE they point is C15's business (unit lexer_pos)
+_WF_TOK = """pub open spec fn wf_lexer<CharIter: Iterator<Item = char>>(l: Lexer<CharIter>) -> bool {
+    &&& l.location[0] + rem(l.peekable_char_stream).len() < u32::MAX
+    &&& l.location[1] + rem(l.peekable_char_stream).len() < u32::MAX
+}"""
+assert _WF_POS in _pos.PRELUDE
+PRELUDE = _pos.PRELUDE.replace(_WF_POS, _WF_TOK) + r'''
 // ------------------------------------------------------------------------------------------
 // Specification for C06: delimiters, atmosphere, identifiers, strings, numbers
 // ------------------------------------------------------------------------------------------
